@@ -14,6 +14,7 @@
     cfg                            → the extracted configuration
 -/
 import PyroModel.Values
+import PyroModel.Gen.C01Src
 import Driver.Util
 
 open Pyro Pyro.Values Driver
@@ -145,6 +146,7 @@ def step : List String → String
       | none => "bad-op"
       | some (v, rest) =>
         if op == "res" ∧ rest.isEmpty then showRes (resRT srcCfg s v)
+        else if op == "ressrc" ∧ rest.isEmpty then showRes (Pyro.Gen.C01Src.resSrc srcCfg s v)   -- recreate_classes as transcribed from the source
         else if op == "arg" ∧ rest.isEmpty then showRes (argPath srcCfg s v)
         else if op == "kw" ∧ rest.isEmpty then showRes (kwPath srcCfg s v)
         else if op == "lib" ∧ rest.isEmpty then showRes (libMap s v)
